@@ -145,6 +145,13 @@ claim("C13",
       "assemblies cleared; scale up/down inverse by 3 under one centre condition with the list computed after the geometry changes. Numerical x3 totals and bit-exact restoration are not decided.",
       COMMON_NOTE, "all-paths event counting + path conditions + exact lattice algebra + ordering", "DESIGN.md section 3 C13")
 
+claim("C18",
+      "Explicitly minimal: C18 relates an input document to an object graph and is not statically decidable as a whole. Claimed clauses, decided exactly: every AsciiMap class reads and writes "
+      "through one (column, line) -> (i, j) map with one line order, and the writer refuses blank interior rows / empty maps; every blueprint attribute indexed per block is among the length-checked "
+      "lists and the check dominates construction; lattice centring uses each axis' own size; the custom isotopic vector is copied into each material; component kwargs forward all attributes "
+      "but a frozen skip set. Faithfulness of the model to the text is not decided.",
+      COMMON_NOTE, "sibling agreement (reader/writer) + dominance + aliasing lint", "DESIGN.md section 3 C18")
+
 NA_REASON = {}
 
 
